@@ -1278,6 +1278,65 @@ fn exec<T: Elem>(pool: &mut Pool<T>, op: &WireOp, ctx: &Ctx) -> String {
                 par(ctx, move || m.into_par_iter_elements_with_index().map(|(ix, e)| idx_item::<T>(ix, e.show())).collect());
             format!("[{}]", v.join(","))
         }
+        // ----- rows / columns handed to several threads (C17) -----
+        (140, [s, nthreads, f, axis]) => {
+            need!(pool, *s);
+            let m = pool[us(*s)].as_mut().unwrap();
+            let f = *f as i64;
+            let nthreads = (*nthreads as usize).max(1);
+            let mut sets: Vec<Vec<usize>> = Vec::new();
+            macro_rules! deal {
+                ($vs:expr) => {{
+                    let mut buckets: Vec<Vec<_>> = (0..nthreads).map(|_| Vec::new()).collect();
+                    for (i, v) in $vs.into_iter().enumerate() {
+                        buckets[i % nthreads].push(v);
+                    }
+                    std::thread::scope(|sc| {
+                        let handles: Vec<_> = buckets
+                            .into_iter()
+                            .map(|bucket| {
+                                sc.spawn(move || {
+                                    let mut addrs = Vec::new();
+                                    for v in bucket {
+                                        for x in v {
+                                            addrs.push(x as *mut T as usize);
+                                            std::thread::yield_now();
+                                            let old = x.clone();
+                                            *x = T::un(10 + f, old);
+                                        }
+                                    }
+                                    addrs
+                                })
+                            })
+                            .collect();
+                        for h in handles {
+                            sets.push(h.join().expect("worker thread"));
+                        }
+                    });
+                }};
+            }
+            if *axis == 0 {
+                deal!(m.iter_rows_mut().collect::<Vec<_>>());
+            } else {
+                deal!(m.iter_cols_mut().collect::<Vec<_>>());
+            }
+            // no element may be reachable from two threads
+            if std::mem::size_of::<T>() != 0 {
+                let mut seen = std::collections::HashMap::new();
+                for (t, set) in sets.iter().enumerate() {
+                    for a in set {
+                        if let Some(prev) = seen.insert(*a, t) {
+                            if prev != t {
+                                flag(format!("an element was reachable from threads {prev} and {t}"));
+                            } else {
+                                flag("an element was handed out twice".to_string());
+                            }
+                        }
+                    }
+                }
+            }
+            ok
+        }
         // ----- lifetime -----
         (130, [s]) => {
             need!(pool, *s);
